@@ -12,11 +12,16 @@ INTERVALS = [(0, 14), (1, 14), (2, 8), (3, 5), (4, 2), (5, 1), (-1, 2), (-7, 1),
 class C11(Prop):
     id = "C11"
     title = "heart_beat runs once per interval per enabled object; faults stay local"
-    lean_modules = ["NV.C11.Props", "NV.C11.Witness"]
+    lean_modules = ["NV.C11.Props", "NV.C11.Witness", "NV.C11.Trace"]
     theorems = [
         "NV.C11.model_satisfies_spec",
         "NV.C11.hb_index_in_bounds",
         "NV.C11.hbs_is_service_order",
+        "NV.C11.at_most_once_per_tick",
+        "NV.C11.disabled_or_destructed_never_called",
+        "NV.C11.judge_ok_implies_clauses",
+        "NV.C11.accepted_trace_ok",
+        "NV.C11.JI_step",
         "NV.C11.complete_round_visits_each_once",
         "NV.C11.beat_only_from_pending",
         "NV.C11.beat_accepted_iff",
